@@ -19,7 +19,7 @@ def _scratch(repo):
     return w
 
 
-def _run_on(prop, repo_dir, facts_dir, extra_cargo=(), rustflags=""):
+def _run_on(prop, repo_dir, facts_dir, extra_cargo=(), rustflags="", relax=False):
     env = dict(os.environ)
     if rustflags:
         env["PVX_RUSTFLAGS"] = rustflags
@@ -31,6 +31,8 @@ def _run_on(prop, repo_dir, facts_dir, extra_cargo=(), rustflags=""):
     env["PV_FACTS"] = facts_dir
     env["PV_REPO"] = repo_dir
     env["PV_NO_EVIDENCE"] = "1"
+    if relax:
+        env["PV_RELAX_FLOORS"] = "1"
     r = subprocess.run([sys.executable, "-m", "pv.main", prop, "--tier", "quick"], cwd=HERE, capture_output=True, text=True, env=env)
     return r.returncode, r.stdout
 
@@ -62,7 +64,7 @@ def run(prop, repo="/repo"):
     # (a) release profile
     w = tempfile.mkdtemp(prefix="pvthor.")
     try:
-        rc, out = _run_on(prop, repo, os.path.join(w, "facts"), extra_cargo=["--release"])
+        rc, out = _run_on(prop, repo, os.path.join(w, "facts"), extra_cargo=["--release"], relax=True)
         head = out.splitlines()[0] if out else ""
         report["release_profile"] = {"rc": rc, "summary": head}
         print("thorough[%s] release-profile extraction: rc=%s %s" % (prop, rc, head))
